@@ -69,6 +69,17 @@ class FrameMonitor(BaseMonitor):
     def call(self, ex, e, cu, cq, cn, ob, objloc, av, st, fr):
         if cn == 'operator()' and isinstance(ob, Obj) and isinstance(st.heap.get(ob.addr), dict) and st.heap[ob.addr].get('__guard_site'):
             st.events.append(('release', st.heap[ob.addr]['__guard_site']))
+        if cn in ('raise', 'raise_nested') and e.get('static') and e.get('cc'):
+            vals = [ex.argval(a, st) for a in av]
+            descs = tuple(self.desc(ex, v, st) for v in vals)
+            cc = e['cc']
+            who = cc['a'][0].get('s') if cc.get('a') else None
+            p = None
+            for a, o in st.heap.items():
+                if isinstance(o, dict) and o.get('__main'): p = o['m_current'].pos
+            st.events.append(('raise', cn, who, cc.get('tn') or cc.get('q'), descs, p))
+            def g(): yield Thrown('raise:' + str(who)), st
+            return g()
         if cn == 'success' and self.own_frame(ex, fr):
             vals = [ex.argval(a, st) for a in av]
             descs = tuple(self.desc(ex, v, st) for v in vals)
